@@ -20,6 +20,16 @@ T = {
  'C10-m2': ('C10', 'pruning off by one with keep_last_states=1: crash after pruning before the app height advances cannot reload', 'C10 replayed-block-differs (restart cannot load the pruned version)'),
  'C11-m1': ('C11', 'token version dropped at import: needs a re-created token before the export', 'C11 reexport-differs /coins'),
  'C11-m2': ('C11', 'unfunded, unused multisig wallet dropped from the export', 'C11 import-loses-state/msig (after the accessor-level comparison was added); first run missed'),
+ 'C02-m1': ('C02', 'BuyCoin supply check compares volume + BIP price: needs a bancor coin priced below 1 BIP close to max supply', 'C02 volume-over-max (1 of 2 seeds)'),
+ 'C02-m2': ('C02', 'BurnToken of the whole balance paying the fee in the same token (token with a BIP pool): balance goes negative', 'C02 negative/balance-at-commit (after a BIP/TOKT pool, same-coin-gas boundary variants and the attribution of the node commit panic were added); first runs missed'),
+ 'C16-m1': ('C16', 'move from a waitlist entry to a key that is no candidate accepted (existence check moved behind the waitlist shortcut)', 'C16 move-accepted-to-nonexistent-candidate'),
+ 'C16-m2': ('C16', 'in-flight move slashed by evidence loses its target: remainder paid to the balance at move maturity', 'C16 credited-to-balance-off-schedule / fund-unexplained'),
+ 'C17-m1': ('C17', 'toDrop validator beyond rank 100 loses its protection and is deleted (needs > 100 candidates + evidence in one block)', 'C17 limit/validator-removed (1 of 2 seeds)'),
+ 'C17-m2': ('C17', 'losing incoming delegation kicked to the waitlist with value 0 (needs a full 1000-slot candidate)', 'C17 conservation/surviving-candidate'),
+ 'C18-m1': ('C18', 'cleared absence bit not persisted: restart re-reads stale absences and jails wrongly', 'C18 jail-event-mismatch / switched-off-without-cause (after process restarts were added to the C18 workload); first run missed'),
+ 'C18-m2': ('C18', 'unbonding fund maturing exactly in the evidence block is not slashed', 'C18 byzantine-fund-not-slashed-5-percent/released-in-punishment-block (after maturity-timed evidence was added); first run missed'),
+ 'C19-m1': ('C19', 'dropped validator still receives a share (SetCandidateOff+On in one block / set-off in a payout block)', 'C19 accrual/dropped'),
+ 'C19-m2': ('C19', 'zero accumulated reward not written after payout: stale value re-read after restart / at payout heights', 'C19 accrual/absent'),
  'C29-m1': ('C29', 'empty leaf values not restored: needs an empty-valued leaf (open order / payout block) at the snapshot height', 'C29 restore-rejected'),
  'C29-m2': ('C29', 'validators record missing from snapshots: shows only when a validator leaves right after the restore', 'C29 restored-query-differs/validators'),
 }
